@@ -495,7 +495,7 @@ theorem fitterFit_wf_left {doc : Node} {f : Nat} {rf : RPos} (S : Schema) (hf : 
 
 /-! ### the end spine, for runs whose loop keeps `placed` and the frontier in step
 
-`rspineOK (frontier.length - 1) placed` at the end of the loop (the invariant `LoopInv` of
+`rspineOK (frontier.length - 1) placed` at the end of the loop (the invariant `FitLoopInv` of
 Proofs/FitInline.lean, or the state `Fitter.__init__` builds) is carried through `close`: the final
 `placed` has a last-child chain of non-leaf nodes as long as the depth of the position `close`
 stopped at — the emitted slice's `open_end`. -/
@@ -703,7 +703,7 @@ theorem replaceStep_inline_wf (S : Schema) (hdet : DetS S) (hfill : FillersOK S)
         subst this
         simp only [StepWF, Slice.wf, hos, hoe, Nat.zero_le, decide_true, Bool.and_self]
       · obtain ⟨st0, h0, hu, hfr, hlen, hsp, hsz⟩ := fitInit_ok S hf hv sl
-        have inv0 : LoopInv S rf.depth st0 := by
+        have inv0 : FitLoopInv S rf.depth st0 := by
           refine ⟨hfr, ?_, by rw [hlen, Nat.add_sub_cancel]; exact hsp, ?_, ?_, by rw [hu]; exact hos,
             by rw [hu]; exact hoe, by rw [hlen, hsz]; omega⟩
           · intro h; rw [h] at hlen; simp at hlen
